@@ -59,8 +59,8 @@ def eval_call(self, st, node):
                             kwargs["**"] = v
                     else:
                         kwargs[kw.arg] = v
-                if isinstance(fn, Top) and fn.domain is None and isinstance(node.func, ast.Name) and node.func.id in self.stubs \
-                        and callable(self.stubs[node.func.id]):
+                if ((isinstance(fn, Top) and fn.domain is None) or (isinstance(fn, Builtin) and isinstance(node.func, ast.Name) and fn.name == node.func.id)) \
+                        and isinstance(node.func, ast.Name) and node.func.id in self.stubs and callable(self.stubs[node.func.id]):
                     # a module-level alias the index cannot resolve (NAME = module.attr): the harness stub by that name
                     res.extend(self.stubs[node.func.id](self, s3, list(args), kwargs, node))
                     continue
@@ -521,6 +521,30 @@ def dict_method(self, st, ref, o, name, args, kwargs, node):
                 for k, v in st.obj(args[0]).items:
                     d[vkey(k)] = (k, v)
                 for k, v in kwargs.items():
+                    d[vkey(k)] = (k, v)
+                o.items = list(d.values())
+                return [(st, "val", None)]
+            pairs = None
+            if not args:
+                pairs = []
+            elif not isinstance(args[0], Top):
+                try:
+                    kind, seq = self.iter_values(st, args[0], node)
+                except AnalysisError:
+                    kind, seq = None, None
+                if kind == "concrete":
+                    pairs = []
+                    for x in seq:
+                        if isinstance(x, Ref) and st.obj(x).kind == "list" and st.obj(x).items is not None and len(st.obj(x).items) == 2:
+                            x = tuple(st.obj(x).items)
+                        if isinstance(x, tuple) and len(x) == 2:
+                            pairs.append(x)
+                        else:
+                            pairs = None
+                            break
+            if pairs is not None:
+                d = dict((vkey(k), (k, v)) for k, v in o.items)
+                for k, v in pairs + list(kwargs.items()):
                     d[vkey(k)] = (k, v)
                 o.items = list(d.values())
                 return [(st, "val", None)]
